@@ -905,8 +905,8 @@ class AstToCfg(ast.NodeVisitor):
 
     if node.type is not None:
       self.visit(node.type)
-    if node.name is not None:
-      self.visit(node.name)
+    # Note: node.name is a plain string (not an AST node), there's nothing to
+    # visit.
 
     for stmt in node.body:
       self.visit(stmt)
